@@ -495,6 +495,64 @@ DETAIL["c09_deep_expression"] = lambda fam, di, mode: {"source_head": deep_sourc
                                                       "outcome": deep_outcome(fam, _DEPTHS[di], mode)}
 CONDITIONS.append({"fn": "c09_deep_expression", "quick": 60, "thorough": 120, "sel_only": True})
 
+# ---- T6 recursion through partials in LAX / WARN mode: the cut-off error is suppressed there, and the render must still
+# finish (not carry on at every level: 2^depth work) --------------------------------------------------------------------
+_T6_P = {"a": "x{% render 'a' %}{% render 'a' %}", "b": "x{% include 'b' %}{% include 'b' %}",
+         "c": "x{% for i in (1..2) %}{% render 'c' %}{% endfor %}",
+         "e": "{% extends 'e2' %}{% block b %}{% include 'e' %}{% include 'e' %}{% endblock %}", "e2": "[{% block b %}{% endblock %}]",
+         "t": "{% if true %}{% render 't' %}{% endif %}{% include 't' %}{% render 't' %}",
+         "m": "{% macro f %}{% render 'm' %}{% render 'm' %}{% endmacro %}{% call f %}{% call f %}",
+         "w": "{% with q: 1 %}{% include 'w' %}{% endwith %}{% capture z %}{% include 'w' %}{% endcapture %}{% include 'w' %}"}
+_T6_NAMES = ["a", "b", "c", "e", "t", "m", "w"]
+_T6_ENVS = {}
+
+
+def tolerant_recursion_outcome(ni, mode, use_async):
+    import warnings
+    if mode not in _T6_ENVS:
+        _T6_ENVS[mode] = Env(extra=True, tolerance=(Mode.STRICT, Mode.WARN, Mode.LAX)[mode], loader=CachingDictLoader(dict(_T6_P), auto_reload=False))
+    env = _T6_ENVS[mode]
+    old = signal.signal(signal.SIGALRM, _alarm)
+    signal.alarm(10)
+    try:
+        with warnings.catch_warnings():
+            warnings.simplefilter("ignore")
+            try:
+                t = env.get_template(_T6_NAMES[ni])
+                if use_async:
+                    from vf.hx import drive
+                    drive(t.render_async())
+                else:
+                    t.render()
+                return "completed"
+            except _Hang:
+                return "hang"
+            except LiquidError as e:
+                return "liquid:" + type(e).__name__
+            except Exception as e:
+                return type(e).__name__
+    finally:
+        signal.alarm(0)
+        signal.signal(signal.SIGALRM, old)
+
+
+def c09_recursion_tolerant_modes(ni: int, mode: int, use_async: bool) -> bool:
+    """
+    pre: 0 <= ni <= 6 and 0 <= mode <= 2
+    post: _
+    """
+    if excluded("c09_recursion_tolerant_modes", locals()):
+        return True
+    from vf.hx import cbool
+    ni, mode, use_async = cint(ni, 0, 6), cint(mode, 0, 2), cbool(use_async)
+    r = untraced(lambda: tolerant_recursion_outcome(ni, mode, use_async))
+    return finish(r == "completed" or r == "liquid:ContextDepthError")
+
+
+DETAIL["c09_recursion_tolerant_modes"] = lambda ni, mode, use_async: {"partial": _T6_P[_T6_NAMES[ni]], "mode": ("STRICT", "WARN", "LAX")[mode],
+                                                                     "outcome within 10 s at the default limits": tolerant_recursion_outcome(ni, mode, use_async)}
+CONDITIONS.append({"fn": "c09_recursion_tolerant_modes", "quick": 60, "thorough": 120, "sel_only": True})
+
 # ---- T5 an opening followed by a long run of filler and no closing delimiter is rejected (or accepted) promptly ----------
 _LR_PRE = ["{%", "{{", "{% if", "{#", "{%-", "{% raw %}", "{% comment %}", "{{ x |", "{% liquid", "{{-", "{% doc %}", "{% a b", "{{ a",
            "{% liquid if x" + chr(10), "{% liquid echo", "{% assign x =", "{% for i in", "{{ x | append:", "{% if a ==", "{% include 'a'",
